@@ -4195,15 +4195,18 @@ BuildNode* BuildSystem::lookupNode(StringRef name) {
 bool llbuild::buildsystem::pathIsPrefixedByPath(std::string path,
                                                 std::string prefixPath) {
   std::string pathSeparators = llbuild::basic::sys::getPathSeparators();
+  // A prefix spelled with trailing separators ("/foo/") names the same
+  // directory as the one without ("/foo"), and must accept the same paths
+  // ("/foo", "/foo/", "/foo/bar"). Compare against the bare spelling.
+  while (!prefixPath.empty() &&
+         pathSeparators.find(prefixPath.back()) != std::string::npos) {
+    prefixPath.pop_back();
+  }
   // Note: GCC 4.8 doesn't support the mismatch(first1, last1, first2, last2)
   // overload, just mismatch(first1, last1, first2), so we have to handle the
   // case where prefixPath is longer than path.
   if (prefixPath.length() > path.length()) {
-    // The only case where the prefix can be longer and still be a valid prefix
-    // is "/foo/" is a prefix of "/foo"
-    return prefixPath.substr(0, prefixPath.length() - 1) == path &&
-           pathSeparators.find(prefixPath[prefixPath.length() - 1]) !=
-               std::string::npos;
+    return false;
   }
   auto res = std::mismatch(prefixPath.begin(), prefixPath.end(), path.begin());
   // Check if `prefixPath` has been exhausted or just a separator remains.
